@@ -17,6 +17,15 @@ theorem c10_stop_stop (s : Stack) : s.announcerStop.announcerStop = s.announcerS
   · rw [c10_idempotent_stop s h, c10_idempotent_stop s h]
   · apply c10_idempotent_stop; simp [announcerStop, h]
 
+/-- what `stop_announce_service(instance, send_stop=False)` does in the code as it is: the instance leaves the
+announcer's list and NOTHING ELSE happens - `instance.stop()` is not called, the offer task keeps its schedule (observed on
+the real code: cyclic offers continue).  The statement of C10 speaks about stopping an instance (one StopOffer, then
+silence); this call does not stop it.  The scenario generators use `send_stop=True`; this theorem records the other branch of
+the model, which mirrors the code. -/
+theorem c10_unannounce_without_stop_only_unlists (s : Stack) (i : Nat) (h : i ∈ s.announceOrder) :
+    s.stopAnnounceService i false = { s with announceOrder := s.announceOrder.erase i } := by
+  simp [stopAnnounceService, h]
+
 /-- SILENCE: while an instance is stopped (`_task is None`) no offer with a non-zero TTL is queued for
 anyone - neither by a leftover step of its old task nor as a delayed answer to an earlier FindService -/
 theorem c10_silence (s : Stack) (i : Nat) (x : Instance) (remote : Dest)
